@@ -576,12 +576,6 @@ func c29ShippedCase(c *fw.Ctx, parser string) {
 		if len(b.toks) < 100 {
 			c.Count("inputs_under_100_tokens", 1)
 		}
-		evEnd := func(j int) int { // input offset reached when j events had been reported
-			if j <= 0 {
-				return 0
-			}
-			return b.events[j-1].E
-		}
 		judge := func(what string, k int, co recgram.SOpts, cancelOffOf func(cr *recgram.SRun) int) {
 			co.Parser, co.Dialect, co.EH, co.MaxEvents = parser, o.Dialect, -1, o.MaxEvents
 			cr := recgram.RunShipped(text, co)
@@ -599,15 +593,10 @@ func c29ShippedCase(c *fw.Ctx, parser string) {
 			}
 		}
 		for k := 1; k <= run.Polls; k++ {
-			judge("poll", k, recgram.SOpts{CancelAtPoll: k}, func(cr *recgram.SRun) int {
-				if cr.CancelEv < 0 || cr.CancelEv > len(b.events) {
-					return -1
-				}
-				return evEnd(cr.CancelEv)
-			})
+			judge("poll", k, recgram.SOpts{CancelAtPoll: k}, func(cr *recgram.SRun) int { return cr.CancelOff })
 		}
 		for _, j := range eventSample(run.N, 40) {
-			judge("event", j, recgram.SOpts{CancelAtEvent: j}, func(cr *recgram.SRun) int { return evEnd(j) })
+			judge("event", j, recgram.SOpts{CancelAtEvent: j}, func(cr *recgram.SRun) int { return cr.CancelOff })
 		}
 		judge("before-start", 0, recgram.SOpts{CancelAtEvent: -1}, func(cr *recgram.SRun) int { return 0 })
 		for k := 0; k < 2; k++ {
@@ -642,7 +631,7 @@ func c29Run(c *fw.Ctx) {
 func init() {
 	fw.Register(&fw.Check{
 		ID:          "C29",
-		Rule:        "generated cases: statement/expression skeleton grammars printed with cancellable = true and varying cancellableFetch, tokenStream, (?= ...) lookaheads over whole parenthesised lists (shift counter in the session, advanced by lookahead shifts), recursiveLookaheads, error recovery, table options; sentences of 10-100, 300-1500 and 2000-5000 tokens plus mutated ones. Shipped cases: js (3 dialects), tm, test parsers in-process on concatenated test-suite snippets / repository grammars (extended with extra rules) of up to several thousand tokens. Every input is first parsed uncancelled (reference), then once per schedule: cancellation at every ctx.Done() poll number k up to the uncancelled poll count (a counting context closes its channel inside the k-th poll), from inside the listener at events 1, 2, every 97th and the last, before the start, and asynchronously from a second goroutine (one generated case is built with -race; a race report is a violation). Offline monitor per cancelled parse: result is the context error or (result, value, event count+hash) equals the uncancelled run; events and handler calls are a prefix of the uncancelled ones (rolling hash); if the uncancelled run shifted every token (accepted, no handler call) and >= 514 tokens remained after the cancel point (lexer offset recorded at the poll/event; for shipped parsers the end of the last event), the result must be the context error and the last event must end within 513 tokens of the cancel point. Non-trivial/distinct: grammar with >=50 judged cancelled parses; shipped input with >=1 poll",
+		Rule:        "generated cases: statement/expression skeleton grammars printed with cancellable = true and varying cancellableFetch, tokenStream, (?= ...) lookaheads over whole parenthesised lists (shift counter in the session, advanced by lookahead shifts), recursiveLookaheads, error recovery, table options; sentences of 10-100, 300-1500 and 2000-5000 tokens plus mutated ones. Shipped cases: js (3 dialects), tm, test parsers in-process on concatenated test-suite snippets / repository grammars (extended with extra rules) of up to several thousand tokens. Every input is first parsed uncancelled (reference), then once per schedule: cancellation at every ctx.Done() poll number k up to the uncancelled poll count (a counting context closes its channel inside the k-th poll), from inside the listener at events 1, 2, every 97th and the last, before the start, and asynchronously from a second goroutine (one generated case is built with -race; a race report is a violation). Offline monitor per cancelled parse: result is the context error or (result, value, event count+hash) equals the uncancelled run; events and handler calls are a prefix of the uncancelled ones (rolling hash); if the uncancelled run shifted every token (accepted, no handler call) and >= 514 tokens remained after the cancel point (lexer offset recorded at the poll/event; for shipped token-stream parsers read from the stream's lexer by reflection), the result must be the context error and the last event must end within 513 tokens of the cancel point. Non-trivial/distinct: grammar with >=50 judged cancelled parses; shipped input with >=1 poll",
 		Assumptions: []string{"the uncancelled run of the same parser is the reference (its correctness is C01/C02)", "token positions of generated inputs come from the renderer; for shipped parsers from a fresh run of the shipped lexer"},
 		Cases: func(tier string) int {
 			a, b, s := c29Layout(tier)
